@@ -155,7 +155,7 @@ def random_schedule(rng, nsess: int, ncmds: int, idle: bool = False,
                     idlers.add(s)
                     if gate_idlers:
                         # a slow client: every write of this session becomes a parking point
-                        run.w.conns[s].writer.gate_drain = True
+                        run.gate(s, True)
                 elif s in need_fetch:
                     need_fetch.discard(s)
                     cmd = ('fetch', False, '1:*', False)
@@ -293,7 +293,7 @@ def main(prop: str, tier: str) -> int:
         for e in sr.errors:
             run.notes.setdefault('harness_errors', []).append(e)
         traces.append(sr.events)
-        meta.append({'kind': 'tlc-behaviour', 'labels': [x[0] for x in b[1:]]})
+        meta.append({'recipe': sr.recipe, 'kind': 'tlc-behaviour', 'labels': [x[0] for x in b[1:]]})
     run.notes['replayed_behaviours'] = len(behs)
     run.notes['replayed_steps'] = replay_steps
     run.notes['nondeterministic_stops'] = nd
@@ -339,7 +339,7 @@ def main(prop: str, tier: str) -> int:
         for e in sr.errors:
             run.notes.setdefault('harness_errors', []).append(e)
         traces.append(sr.events)
-        meta.append({'kind': 'random-schedule', 'schedule': log})
+        meta.append({'recipe': sr.recipe, 'kind': 'random-schedule', 'schedule': log})
 
     # 3m. the same kind of schedules on the maildir backend (anchored in
     # pymap/backend/maildir/mailbox.py: every session has its own MailboxSet and learns of
@@ -377,7 +377,7 @@ def main(prop: str, tier: str) -> int:
             for e in sr.errors:
                 run.notes.setdefault('harness_errors', []).append(e)
             traces.append(sr.events)
-            meta.append({'kind': 'random-schedule', 'backend': 'maildir', 'schedule': log})
+            meta.append({'recipe': sr.recipe, 'kind': 'random-schedule', 'backend': 'maildir', 'schedule': log})
         run.notes['maildir_schedules'] = nm
         if prop == 'C02':
             # directed: a \\Seen-setting FETCH of session a with session b's flag change placed
@@ -406,7 +406,7 @@ def main(prop: str, tier: str) -> int:
                     finally:
                         sr.close()
                     traces.append(sr.events)
-                    meta.append({'kind': 'directed-fetch-vs-store', 'backend': 'maildir',
+                    meta.append({'recipe': sr.recipe, 'kind': 'directed-fetch-vs-store', 'backend': 'maildir',
                                  'placement': k, 'other': list(map(str, bcmd))})
 
     # 3i. C02 / C16: a slow idler - its notifications go out one line at a time (drain gated)
@@ -452,7 +452,7 @@ def main(prop: str, tier: str) -> int:
                 finally:
                     sr.close()
                 traces.append(sr.events)
-                meta.append({'kind': 'name-rebound', 'box': box, 'commands': log})
+                meta.append({'recipe': sr.recipe, 'kind': 'name-rebound', 'box': box, 'commands': log})
 
     # 3b. C17: life-cycle histories from the reference model RecentModel.tla (every edge)
     if prop == 'C17':
@@ -516,7 +516,7 @@ def slow_idler_histories(traces, meta) -> None:
                         sr.finish(x)
                 sr.issue('a', ('idle',))
                 sr.finish('a')
-                sr.w.conns['a'].writer.gate_drain = True
+                sr.gate('a', True)
                 for item in seq:
                     if isinstance(item, int):
                         for _ in range(item + extra):
@@ -527,7 +527,7 @@ def slow_idler_histories(traces, meta) -> None:
                         sr.issue('b', item)
                         sr.finish('b')
                         log.append(('cmd', 'b', item))
-                sr.w.conns['a'].writer.gate_drain = False
+                sr.gate('a', False)
                 sr.quiesce()
                 sr.idlecheck()
                 sr.issue('a', ('done',))
@@ -537,7 +537,7 @@ def slow_idler_histories(traces, meta) -> None:
             finally:
                 sr.close()
             traces.append(sr.events)
-            meta.append({'kind': 'slow-idler', 'history': k, 'extra_steps': extra, 'schedule': log})
+            meta.append({'recipe': sr.recipe, 'kind': 'slow-idler', 'history': k, 'extra_steps': extra, 'schedule': log})
 
 
 def validity_rounds(run, rounds: int) -> None:
@@ -650,7 +650,7 @@ def pair_histories(run, rng, quick, traces, meta) -> None:
         finally:
             sr.close()
         traces.append(sr.events)
-        meta.append({'kind': 'pair-history', 'commands': log})
+        meta.append({'recipe': sr.recipe, 'kind': 'pair-history', 'commands': log})
 
 
 def lifecycle_part(run, rng, quick, traces, meta) -> None:
@@ -736,7 +736,7 @@ def _lifecycle_part(run, rng, quick, traces, meta) -> None:
         finally:
             sr.close()
         traces.append(sr.events)
-        meta.append({'kind': 'lifecycle', 'actions': [p[0] for p in path], 'commands': log})
+        meta.append({'recipe': sr.recipe, 'kind': 'lifecycle', 'actions': [p[0] for p in path], 'commands': log})
         if len(traces) % 25 == 0:
             import gc
             gc.collect()        # between histories only: what a finished history left in cycles
@@ -749,7 +749,7 @@ def classify(prop, clause, events, line, detail='', backend='dict'):
         return 'StaleRecentPick' if stale_pick(events[:line], int(detail)) else None
     if clause == 'C02_ConvergedFlags' and backend == 'maildir' and seen_race(events, line):
         return 'MaildirFetchSeenRace'
-    if clause == 'C04_UidDenotesOneMessage':
+    if clause in ('C04_UidDenotesOneMessage', 'C04_CopyUid'):
         ev = events[line - 1]
         # the name the session selected now denotes ANOTHER mailbox object (renamed away,
         # deleted and created again) and the server followed the name
@@ -777,8 +777,16 @@ def seen_race(events, line: int) -> bool:
         elif ev['e'] == 'tagged' and ev['s'] in open_:
             a, cmd = open_.pop(ev['s'])
             spans.append((ev['s'], a, i, cmd))
-        if ev.get('s') == s and ev['e'] == 'fetch' and ev.get('hasflags') and ev.get('uid'):
-            told[ev['uid']] = (i, set(ev['flags']) - {'\\Recent'})
+        if ev.get('s') == s and ev['e'] in ('start', 'tagged') and 'view' in ev:
+            view = list(ev['view'])
+        elif ev.get('s') == s and ev['e'] == 'expunge' and 0 < ev.get('n', 0) <= len(view):
+            view.pop(ev['n'] - 1)
+        if ev.get('s') == s and ev['e'] == 'fetch' and ev.get('hasflags'):
+            # a FETCH without UID (the response of a STORE by sequence number): the number is
+            # read against the session's view
+            uid = ev.get('uid') or (view[ev['n'] - 1] if 0 < ev.get('n', 0) <= len(view) else 0)
+            if uid:
+                told[uid] = (i, set(ev['flags']) - {'\\Recent'})
     bad_uids = [u for u, fl in truth.items()
                 if u in told and told[u][1] != set(fl)]
     if not bad_uids:
@@ -803,8 +811,10 @@ def stale_pick(events, uid: int) -> bool:
     destination mailbox ended: the session layer picked that selection as the
     recipient of \\Recent before waiting for the mailbox lock."""
     arr = None
+    # the mailbox whose read-write selection was not shown the message (the failing event)
+    mbx = events[-1].get('mbx') if events else None
     for i, ev in enumerate(events):
-        if ev['e'] == 'arrive' and uid in ev['uids']:
+        if ev['e'] == 'arrive' and uid in ev['uids'] and (not mbx or ev['dest'] == mbx):
             arr = i
     if arr is None:
         return False
@@ -816,7 +826,17 @@ def stale_pick(events, uid: int) -> bool:
             break
     if start is None:
         return False
-    # which sessions had `dest` selected read-write when the delivering command started
+    # the pick is made when the delivering command goes to wait for the destination's lock:
+    # its last step to a write-lock checkpoint before the message landed (else: its start)
+    # (the step logged just before the arrival is the one that landed the message)
+    landing = next((i for i in range(arr, start, -1)
+                    if events[i]['e'] == 'step' and events[i].get('s') == by), arr)
+    for i in range(landing - 1, start, -1):
+        if events[i]['e'] == 'step' and events[i].get('s') == by \
+                and str(events[i].get('to', '')).startswith('w:'):
+            start = i
+            break
+    # which sessions had `dest` selected read-write at that point
     sel = {}
     for i, ev in enumerate(events[:start]):
         if ev['e'] == 'tagged':
@@ -838,3 +858,43 @@ def stale_pick(events, uid: int) -> bool:
                 or ev['e'] in ('bye', 'cancel', 'drop')):
             holders.discard(ev['s'])
     return not holders
+
+
+def replay(prop: str, path: str) -> int:
+    """Set the recorded execution up again, repeat every driver action on the real server and
+    have TLC judge the new recording.  Exit 1 if a clause of the property fails again."""
+    import json
+    from ..syncrun import run_recipe
+    rec = json.load(open(path))
+    rep = rec['replay']
+    recipe = (rep.get('meta') or {}).get('recipe')
+    if not recipe:
+        print('this replay file carries no recipe (written before replays of this check existed)')
+        return 2
+    if rep['meta'].get('kind') == 'lifecycle':
+        import gc
+        gc.disable()
+    try:
+        sr = run_recipe(recipe)
+    finally:
+        import gc
+        gc.enable()
+    for e in sr.errors:
+        print('note:', e)
+    obs = OBSERVER.get(prop, 'Trace_Sync')
+    verdicts, vres = tlc.validate_total(obs + '.tla', obs + '.cfg', [sr.events])
+    if len(verdicts) != 1:
+        print('trace validation incomplete: ' + (vres.error or vres.output[-800:]))
+        return 2
+    line, clause = verdicts[1]
+    clause, _, detail = clause.partition(':')
+    for e in sr.events[max(0, (line or len(sr.events)) - 25):(line or len(sr.events))]:
+        print('  ', e)
+    was = rep.get('clause')
+    if clause and (clause.startswith(CLAUSE_PROP[prop]) or clause == was):
+        sig = classify(prop, clause, sr.events, line, detail, recipe['init'].get('backend', 'dict'))
+        print(f'REPRODUCED: {clause} at event {line}: {sr.events[line - 1]}'
+              + (f' (known finding {sig})' if sig else ''))
+        return 1
+    print(f'NOT REPRODUCED (recorded: {was}; now: {clause or "every clause holds"})')
+    return 0
